@@ -107,8 +107,10 @@ def run(ctx):
     if mods:
         import extract
         ctx.gen_tables = extract.all_tables()      # C01Suites is proved over the table regenerated from the source
-        ctx.prove(list(dict.fromkeys(mods + ["TLX.Props.C01Suites"] + list(getattr(rl, "PROVE_MODULES", [])))))
-        ctx.require_theorems(list(getattr(rl, "THEOREMS", THEOREMS)) + [
+        import c01_pipeline_thms
+        ctx.prove(list(dict.fromkeys(mods + ["TLX.Props.C01Suites"] + list(getattr(rl, "PROVE_MODULES", []))
+                                     + c01_pipeline_thms.MODULES)))
+        ctx.require_theorems(list(getattr(rl, "THEOREMS", THEOREMS)) + c01_pipeline_thms.THEOREMS + [
             "TLX.Props.C01Suites.table_covered", "TLX.Props.C01Suites.every_table_suite_has_proved_class",
             "TLX.Props.C01Suites.table_suite_cipher_type_known"])
         rl.run_reclayer(ctx)
@@ -116,6 +118,8 @@ def run(ctx):
     # suite table + key log + key schedule + record layer + builder), toy ciphers and real hashes on both sides
     import pipeline_corr
     pipeline_corr.correspond(ctx)
+    import file_corr
+    file_corr.correspond(ctx, ctx.n(30, 600))     # capture FILE + key-log file → output FILE, byte for byte
     explore(ctx)
     return ctx.finish(search=lambda c: explore(c, scale=3))
 
